@@ -49,7 +49,7 @@ def run(ctx):
     match_table(ctx, "C03-R1", f, walk(f), rows, "proto Datagram::read")
     f = A.fn("wtransport_proto::bytes::BufferReader::buffer_remaining")
     ls = [path_sig(p)[1] for p in nonpanic(walk(f))]
-    ctx.check("C03-R1", "buffer_remaining is a suffix of the buffer", ls == ["return <impl Index<I> for [T]>::index(BufferReader::buffer(self),RangeFrom(BufferReader::offset(self)))"],
+    ctx.check("C03-R1", "buffer_remaining is a suffix of the buffer", ls == ["return BufferReader::buffer(self)[BufferReader::offset(self)..]"],
               "BufferReader::buffer_remaining is not `&buffer()[offset()..]`: %s" % ls, where(f))
     # driver side
     f = A.fn("wtransport::datagram::Datagram::read")
@@ -78,7 +78,7 @@ def run(ctx):
         ctx.check("C03-R1", "driver Datagram::%s" % nm, len(ls) == 1 and re.match(fld, ls[0]) is not None, "Datagram::%s changed: %s" % (nm, ls), where(f))
     f = A.fn("<wtransport::datagram::Datagram as std::ops::Deref>::deref")
     ls = [path_sig(p)[1] for p in nonpanic(walk(f))]
-    ctx.check("C03-R1", "Deref slices from payload_offset", ls == ["return <impl Index<I> for [T]>::index(self.quic_dgram,RangeFrom(self.payload_offset))"], "Deref for Datagram changed: %s" % ls, where(f))
+    ctx.check("C03-R1", "Deref slices from payload_offset", ls == ["return self.quic_dgram[self.payload_offset..]"], "Deref for Datagram changed: %s" % ls, where(f))
 
     ctx.rule("C03-R2", "quarter stream id conversion: write uses from_session_id (>>2), read uses into_session_id (<<2), header size from the quarter id")
     f = A.fn_opt("wtransport::datagram::Datagram::header_size")
